@@ -223,11 +223,11 @@ func lapackRows() []*lroutine {
 	add(row("Dgebrd", ldim("m", "n"), lmat("a", m, n), lvec("d", mn), lvec("e", plus(mn, -1)), lvec("tauQ", mn), lvec("tauP", mn), lwork(maxOf(m, n))))
 	add(row("Dgebd2", ldim("m", "n"), lmat("a", m, n), lvec("d", mn), lvec("e", plus(mn, -1)), lvec("tauQ", mn), lvec("tauP", mn), lvec("work", maxOf(m, n))))
 	ihi := func(f efn) efn { return func(e *lenv) int { return f(e) - 1 } }
-	add(row("Dgehrd", ldim("n"), intv("ilo", cst(0)), intv("ihi", ihi(n)), lmat("a", n, n), lvecEq("tau", n1, msgBadLenTau), lwork(n)))
-	add(row("Dgehd2", ldim("n"), intv("ilo", cst(0)), intv("ihi", ihi(n)), lmat("a", n, n), lvecEq("tau", n1, msgBadLenTau), lvec("work", n)))
-	add(row("Dorghr", ldim("n"), intv("ilo", cst(0)), intv("ihi", ihi(n)), lmat("a", n, n), lvec("tau", n1), lwork(n1)).
+	add(row("Dgehrd", ldim("n"), intv("ilo", subLo(n)), intv("ihi", subHi(n)), lmat("a", n, n), lvecEq("tau", n1, msgBadLenTau), lwork(n)))
+	add(row("Dgehd2", ldim("n"), intv("ilo", subLo(n)), intv("ihi", subHi(n)), lmat("a", n, n), lvecEq("tau", n1, msgBadLenTau), lvec("work", n)))
+	add(row("Dorghr", ldim("n"), intv("ilo", subLo(n)), intv("ihi", subHi(n)), lmat("a", n, n), lvec("tau", n1), lwork(func(e *lenv) int { return e.g("ihi") - e.g("ilo") })).
 		altMsg("n", "lapack: ihi out of range", "lapack: ilo out of range"))
-	add(row("Dormhr", fSide(), fTrans2(), ldim("m", "n"), intv("ilo", cst(0)), intv("ihi", ihi(nq)), lmat("a", nq, nq), lvecEq("tau", plus(nq, -1), msgBadLenTau),
+	add(row("Dormhr", fSide(), fTrans2(), ldim("m", "n"), intv("ilo", subLo(nq)), intv("ihi", subHi(nq)), lmat("a", nq, nq), lvecEq("tau", plus(nq, -1), msgBadLenTau),
 		lmat("c", m, n), lwork(nw)).
 		emptyIf(func(e *lenv) bool { return e.g("m") == 0 || e.g("n") == 0 || nq(e) == 1 }).
 		altMsg("m", "lapack: ihi out of range", "lapack: ilo out of range").altMsg("n", "lapack: ihi out of range", "lapack: ilo out of range"))
@@ -238,7 +238,7 @@ func lapackRows() []*lroutine {
 	add(row("Dgebal", fJob(), ldim("n"), lmat("a", n, n), lvecEq("scale", n, "lapack: insufficient length of scale")).
 		mod("a", func(a *larg) { a.onlyIf = jobNotNone }))
 	add(row("Dgebak", fJob(), lflag("side", lapack.EVLeft, "lapack: bad EVSide", byte(lapack.EVLeft), byte(lapack.EVRight)), ldim("n"),
-		intv("ilo", cst(0)), intv("ihi", ihi(n)), lvec("scale", n), ldim("m"), lmat("v", n, m)).
+		intv("ilo", subLo(n)), intv("ihi", subHi(n)), lvec("scale", n), ldim("m"), lmat("v", n, m)).
 		mod("scale", func(a *larg) {
 			a.fill = func(e *lenv, s []float64) {
 				for i := range s {
@@ -421,7 +421,7 @@ func lapackRows() []*lroutine {
 		return lflag(name, lapack.OrthoNone, "lapack: bad OrthoComp", byte(lapack.OrthoNone), byte(lapack.OrthoExplicit), byte(lapack.OrthoPostmul))
 	}
 	cq, cz := isFlag("compq", byte(lapack.OrthoExplicit), byte(lapack.OrthoPostmul)), isFlag("compz", byte(lapack.OrthoExplicit), byte(lapack.OrthoPostmul))
-	add(row("Dgghrd", fOrtho("compq"), fOrtho("compz"), ldim("n"), intv("ilo", cst(0)), intv("ihi", ihi(n)), lmat("a", n, n), lmat("b", n, n),
+	add(row("Dgghrd", fOrtho("compq"), fOrtho("compz"), ldim("n"), intv("ilo", subLo(n)), intv("ihi", subHi(n)), lmat("a", n, n), lmat("b", n, n),
 		usedIf(lmat("q", n, n), cq), usedIf(lmat("z", n, n), cz)).
 		mod("b", setFill(fillTri(n, n, "ldb", false))).mod("ldq", ldIf(cq, n)).mod("ldz", ldIf(cz, n)))
 	p := v("p")
@@ -442,5 +442,10 @@ func lapackRows() []*lroutine {
 		lvecEq("alpha", n, "lapack: bad length of alpha"), lvecEq("beta", n, "lapack: bad length of beta"),
 		usedIf(lmat("u", m, m), wu), usedIf(lmat("v", p, p), wv), usedIf(lmat("q", n, n), wq), lvec("work", times(2, n))).
 		mod("ldu", ldIf(wu, m)).mod("ldv", ldIf(wv, p)).mod("ldq", ldIf(wq, n)).menu(0, 1, 3))
+	for _, r := range rs {
+		if subRangeRoutines[r.name] {
+			r.variants = 2
+		}
+	}
 	return append(rs, lapackRows3()...)
 }
